@@ -3,7 +3,7 @@
    The domain on which the hand model is claimed to describe the code is spelled out as hypotheses
    ([odom] / [jdom] below); what differs outside it is listed in the builder's report. *)
 From Coq Require Import List String ZArith QArith Qround Bool Arith Lia.
-From SX Require Lib.Py Model.Storer Model.StorerRt Gen.GenStorer Proofs.C04_Source Proofs.C06_Oscar Proofs.C06_Jetscape.
+From SX Require Lib.Py Model.Storer Model.StorerRt Gen.GenStorer Proofs.C04_Source Proofs.C06_Oscar Proofs.C06_Jetscape Proofs.C06_Example.
 From SX Require Import Lib.Strs Gen.GenFormats Model.Oscar Model.Writer Model.WritersRt Gen.GenWriters.
 Import ListNotations.
 Local Open Scope string_scope.
@@ -131,9 +131,8 @@ Lemma particle_list_spec (rowf : particle -> result row) evs cnts :
   py_particle_list GenStorer.gen_particle_list rowf (Some evs) (Some cnts) (Some (zlen evs))
   = match evs with
     | [] => Ok PL0
-    | [[]] => Ok PL0
-    | [ev] => rs <- mapr rowf ev ;; Ok (PFlat rs)
-    | _ => rss <- mapr (mapr rowf) evs ;; Ok (PNested rss)
+    | [ev] => match ev with [] => Ok PL0 | _ :: _ => rs <- mapr rowf ev ;; Ok (PFlat rs) end
+    | _ :: _ :: _ => rss <- mapr (mapr rowf) evs ;; Ok (PNested rss)
     end.
 Proof.
   intros H. unfold py_particle_list. rewrite C04_Source.source_particle_list.
@@ -347,3 +346,842 @@ Section FmtRow.
       rewrite E. destruct (zipfmt fmt fs vs); reflexivity.
   Qed.
 End FmtRow.
+
+(* ------------------------------------------------------------------ Oscar.__event_footer *)
+Theorem source_oscar_event_footer dec self lab (pos : nat) :
+  (0 <= lab)%Z ->
+  (forall f, nth_error (o_end_lines self) (Z.to_nat lab) = Some f -> (4 <= List.length f)%nat) ->
+  gen_oscar_event_footer dec self lab (Z.of_nat pos) = footer_for dec (o_end_lines self) lab pos.
+Proof.
+  intros Hl H4. unfold gen_oscar_event_footer, footer_for, pyidx.
+  destruct (lab <? 0)%Z eqn:E; [apply Z.ltb_lt in E; lia|]. rewrite E.
+  destruct (nth_error (o_end_lines self) (Z.to_nat lab)) as [f|] eqn:En; [|reflexivity].
+  specialize (H4 f eq_refl). destruct f as [|a [|b [|c [|d t]]]]; cbn [List.length] in H4; try lia.
+  cbn [bind]. unfold py_nl_set, pyset, py_split_nl, py_nl_join. cbn [Z.ltb Z.compare].
+  assert (Hn : zlen (a :: b :: c :: d :: t) = (zlen t + 4)%Z) by (rewrite !zlen_cons; lia).
+  rewrite Hn. pose proof (zlen_nonneg t) as Hp.
+  destruct (zlen t + 4 <=? 2)%Z eqn:E1; [apply Z.leb_le in E1; lia|].
+  destruct (2 =? zlen t + 4 - 1)%Z eqn:E2; [apply Z.eqb_eq in E2; lia|].
+  cbn [orb bind]. reflexivity.
+Qed.
+
+(* the label is looked up as a Python index: a label past the end lines is an IndexError in both *)
+
+(* ------------------------------------------------------------------ the header scan of Oscar.print_particle_lists_to_file *)
+Definition line_is_end (t : list string) : result bool :=
+  andM (x <- pyidx t 0 ;; Ok (x =? "#")) (x <- pyidx t 3 ;; Ok (x =? "end")).
+Definition scan_step (st : Z * list rline * list line) : result ((Z * list rline * list line) * bool) :=
+  let '(c, h, f) := st in
+  let '(l, f') := py_readline f in
+  if (c <? 3)%Z then Ok ((c + 1, h ++ [l], f')%Z%list, false)
+  else b <- line_is_end (py_split_line l) ;;
+       if b then Ok ((c, h, f'), true)
+       else if (c >? 1000000)%Z then Err OtherError else Ok ((c + 1, h, f')%Z, false).
+
+(* the source file: three header lines, then lines that are not end lines up to the first end line *)
+Definition src_ok (src : list line) (header : list line) : Prop :=
+  exists h1 h2 h3 pre endl post,
+    header = [h1; h2; h3] /\ src = (h1 :: h2 :: h3 :: pre ++ endl :: post)%list /\
+    Forall (fun l => line_is_end l = Ok false) pre /\ line_is_end endl = Ok true /\
+    (Z.of_nat (List.length pre) + 2 <= 1000000)%Z.
+
+Lemma scan_tail endl post : line_is_end endl = Ok true ->
+  forall pre m c h, Forall (fun l => line_is_end l = Ok false) pre -> (3 <= c)%Z -> (c + Z.of_nat (List.length pre) <= 1000001)%Z ->
+  py_while (List.length pre + 1 + m) scan_step (c, h, pre ++ endl :: post)%list = Ok ((c + Z.of_nat (List.length pre))%Z, h, post).
+Proof.
+  intros He. induction pre as [|l pre IH]; intros m c h Hp Hc Hb; cbn [List.length Nat.add py_while app].
+  - unfold scan_step. cbn [py_readline py_split_line]. destruct (c <? 3)%Z eqn:E; [apply Z.ltb_lt in E; lia|].
+    rewrite He. cbn [bind snd fst]. rewrite Z.add_0_r. reflexivity.
+  - inversion Hp as [|? ? Hl Hp']; subst. unfold scan_step at 1. cbn [py_readline py_split_line].
+    destruct (c <? 3)%Z eqn:E; [apply Z.ltb_lt in E; lia|]. rewrite Hl. cbn [bind].
+    destruct (c >? 1000000)%Z eqn:E2; [apply Z.gtb_lt in E2; cbn [List.length] in Hb; lia|]. cbn [bind snd fst].
+    rewrite IH by (try assumption; cbn [List.length] in Hb; lia). f_equal. f_equal. f_equal. cbn [List.length]. lia.
+Qed.
+
+Lemma scan_step_head c h l f : (c <? 3)%Z = true -> scan_step (c, h, l :: f) = Ok ((c + 1)%Z, (h ++ [RL l])%list, f, false).
+Proof. intros E. unfold scan_step. cbn [py_readline]. rewrite E. reflexivity. Qed.
+
+Lemma scan_run src header : src_ok src header ->
+  exists c post, py_while while_fuel scan_step (0%Z, [], src) = Ok (c, map RL header, post).
+Proof.
+  intros (h1 & h2 & h3 & pre & endl & post & -> & -> & Hp & He & Hb).
+  pose proof while_fuel_big as Hf.
+  assert (Hm : exists m, while_fuel = S (S (S (List.length pre + 1 + m)))) by (exists (while_fuel - 3 - List.length pre - 1)%nat; lia).
+  destruct Hm as [m ->]. clear Hf. eexists. exists post.
+  cbn [py_while].
+  rewrite scan_step_head by reflexivity. cbn [bind snd fst].
+  rewrite scan_step_head by reflexivity. cbn [bind snd fst].
+  rewrite scan_step_head by reflexivity. cbn [bind snd fst app].
+  assert (A1 : (3 <= 0 + 1 + 1 + 1)%Z) by lia.
+  assert (A2 : (0 + 1 + 1 + 1 + Z.of_nat (List.length pre) <= 1000001)%Z) by lia.
+  rewrite (scan_tail endl post He pre m (0 + 1 + 1 + 1)%Z _ Hp A1 A2). reflexivity.
+Qed.
+
+(* ------------------------------------------------------------------ np.asarray + np.savetxt of rows without NaN *)
+Definition no_nan (r : row) : Prop := Forall (fun c => c <> None) r.
+
+Section Savetxt.
+  Variable fmt : colfmt -> Q -> string.
+
+  Lemma fmt_row_ok : forall fs r, no_nan r -> List.length r = List.length fs -> exists l, fmt_row fmt fs r = Ok l.
+  Proof.
+    induction fs as [|f fs IH]; intros [|c r] Hn Hl; try discriminate; [exists []; reflexivity|].
+    inversion Hn as [|? ? Hc Hn']; subst. destruct c as [v|]; [|congruence]. cbn [fmt_row fmt_cell bind].
+    destruct (IH r Hn') as [l ->]; [cbn [List.length] in Hl; lia|]. eexists; reflexivity.
+  Qed.
+  Lemma fmt_row_bad : forall fs r, no_nan r -> List.length r <> List.length fs -> fmt_row fmt fs r = Err ValueError.
+  Proof.
+    induction fs as [|f fs IH]; intros [|c r] Hn Hl; try reflexivity; [cbn [List.length] in Hl; lia|].
+    inversion Hn as [|? ? Hc Hn']; subst. destruct c as [v|]; [|congruence]. cbn [fmt_row fmt_cell bind].
+    rewrite (IH r Hn') by (cbn [List.length] in Hl; lia). reflexivity.
+  Qed.
+  Lemma mapr_rows_bad fs : forall rows, Forall no_nan rows ->
+    forallb (fun r => (List.length r =? List.length fs)%nat) rows = false -> mapr (fmt_row fmt fs) rows = Err ValueError.
+  Proof.
+    induction rows as [|r rows IH]; intros Hn Hb; [discriminate|]. inversion Hn as [|? ? Hr Hn']; subst.
+    cbn [forallb mapr] in *. destruct (List.length r =? List.length fs)%nat eqn:E.
+    - apply Nat.eqb_eq in E. destruct (fmt_row_ok fs r Hr E) as [l ->]. cbn [bind]. rewrite (IH Hn' Hb). reflexivity.
+    - apply Nat.eqb_neq in E. rewrite (fmt_row_bad fs r Hr E). reflexivity.
+  Qed.
+
+  Lemma savetxt_rows h rows fs : rows <> [] -> Forall no_nan rows ->
+    (x <- py_asarray_rows rows ;; py_savetxt fmt h x fs) = (ls <- mapr (fmt_row fmt fs) rows ;; Ok (h ++ ls)%list).
+  Proof.
+    intros Hne Hn. destruct rows as [|r0 t]; [congruence|]. unfold py_asarray_rows.
+    destruct (forallb (fun r => (List.length r =? List.length fs)%nat) (r0 :: t)) eqn:Eall.
+    - cbn [forallb] in Eall. apply andb_true_iff in Eall. destruct Eall as [E0 Et]. apply Nat.eqb_eq in E0.
+      assert (Eh : forallb (fun y => (List.length y =? List.length r0)%nat) t = true).
+      { rewrite E0. exact Et. }
+      rewrite Eh. cbn [bind]. unfold py_savetxt. rewrite E0, Nat.eqb_refl. reflexivity.
+    - rewrite (mapr_rows_bad fs (r0 :: t) Hn Eall). cbn [bind].
+      destruct (forallb (fun y => (List.length y =? List.length r0)%nat) t) eqn:Eh; [|reflexivity].
+      cbn [bind]. unfold py_savetxt. destruct (List.length r0 =? List.length fs)%nat eqn:E0; [|reflexivity].
+      exfalso. apply Nat.eqb_eq in E0. cbn [forallb] in Eall. rewrite E0, Nat.eqb_refl in Eall. cbn [andb] in Eall.
+      rewrite <- E0 in Eall. congruence.
+  Qed.
+End Savetxt.
+
+(* ------------------------------------------------------------------ formats against integer columns *)
+Lemma mapr_length {A B} (f : A -> result B) : forall l r, mapr f l = Ok r -> List.length r = List.length l.
+Proof.
+  induction l as [|x l IH]; intros r H; cbn [mapr] in H; [injection H as <-; reflexivity|].
+  destruct (f x); cbn [bind] in H; [|discriminate]. destruct (mapr f l) eqn:E; cbn [bind] in H; [|discriminate].
+  injection H as <-. cbn [List.length]. rewrite (IH _ eq_refl). reflexivity.
+Qed.
+
+Lemma ascii_fd a s f : assoc a attr_table = Some (s, true) -> assoc a gen_format_map = Some f -> f = FD.
+Proof.
+  unfold attr_table, gen_format_map; cbn [assoc].
+  repeat match goal with
+         | |- context [(a =? ?k)%string] =>
+           destruct (a =? k)%string eqn:E;
+           [apply String.eqb_eq in E; subst a; vm_compute; intros H1 H2; congruence | clear E]
+         end.
+  intro H; discriminate H.
+Qed.
+
+Lemma fl_ok_app f1 f2 g1 g2 : List.length f1 = List.length g1 -> fl_ok f1 g1 = true -> fl_ok f2 g2 = true -> fl_ok (f1 ++ f2) (g1 ++ g2) = true.
+Proof.
+  revert g1. induction f1 as [|b f1 IH]; intros [|g g1] Hl H1 H2; try discriminate; [exact H2|].
+  cbn [app fl_ok] in *. apply andb_true_iff in H1. destruct H1 as [Ha Hb]. rewrite Ha. cbn [andb]. apply IH; [cbn [List.length] in Hl; lia|assumption..].
+Qed.
+
+Lemma fl_ok_fd flags k : fl_ok flags (repeat FD k) = true.
+Proof. revert k. induction flags as [|b flags IH]; intros [|k]; cbn [repeat fl_ok]; try reflexivity. rewrite IH. destruct b; reflexivity. Qed.
+
+Definition ext2 (f : string) : bool := (f =? "Oscar2013Extended") || (f =? "Oscar2013Extended_IC").
+Definition ext_fmt (ncols : nat) : list colfmt := (gen_format_extended ++ repeat FD (ncols - 20))%list.
+
+Lemma row_formats_cases f attrs n fs : row_formats f attrs n = Ok fs ->
+  ((f =? "Oscar2013") = true /\ fs = gen_format_oscar2013) \/
+  ((f =? "Oscar2013") = false /\ ext2 f = true /\ fs = ext_fmt n) \/
+  ((f =? "Oscar2013") = false /\ ext2 f = false /\ (f =? "ASCII") = true /\
+   mapr (fun a => match assoc a gen_format_map with Some x => Ok x | None => Err KeyError end) attrs = Ok fs).
+Proof.
+  unfold row_formats, ext2, ext_fmt. destruct (f =? "Oscar2013").
+  - intros H; injection H as <-. left. split; reflexivity.
+  - destruct ((f =? "Oscar2013Extended") || (f =? "Oscar2013Extended_IC")).
+    + intros H; injection H as <-. right; left. repeat split.
+    + destruct (f =? "ASCII"); [|discriminate]. intros H. right; right. repeat split. exact H.
+Qed.
+
+(* the formats of a row and which of its columns are integers agree; the row has one flag per value *)
+Lemma flags_ok f attrs n p vs fs : row_values f attrs p = Ok vs -> row_formats f attrs n = Ok fs ->
+  fl_ok (row_flags f attrs p) fs = true /\ List.length (row_flags f attrs p) = List.length vs.
+Proof.
+  intros Hv Hf. destruct (row_formats_cases _ _ _ _ Hf) as [(E1 & ->)|[(E1 & E2 & ->)|(E1 & E2 & E3 & Hm)]]; unfold row_values, row_flags in *.
+  - apply String.eqb_eq in E1. subst f. cbn [String.eqb Ascii.eqb Bool.eqb wcols_of bind] in *.
+    apply mapr_length in Hv. rewrite map_length. split; [reflexivity|symmetry; exact Hv].
+  - assert (EA : (f =? "ASCII") = false).
+    { unfold ext2 in E2. apply orb_true_iff in E2. destruct E2 as [E|E]; apply String.eqb_eq in E; subst f; reflexivity. }
+    rewrite EA in *. unfold wcols_of in *. rewrite E1 in *. unfold ext2 in E2. rewrite E2 in *. cbn [bind] in Hv.
+    apply mapr_length in Hv. rewrite map_length. split; [|symmetry; exact Hv].
+    rewrite map_app. unfold ext_fmt. apply fl_ok_app; [reflexivity|reflexivity|].
+    apply fl_ok_fd.
+  - rewrite E3 in *. split; [|rewrite map_length; apply mapr_length in Hv; symmetry; exact Hv].
+    clear Hf. revert vs fs Hv Hm. induction attrs as [|a attrs IH]; intros vs fs Hv Hm; [reflexivity|].
+    cbn [mapr map] in *. destruct (assoc a attr_table) as [[s isint]|] eqn:Ea; [|discriminate].
+    destruct (col_value (a, s, isint) p); cbn [bind] in Hv; [|discriminate].
+    destruct (mapr _ attrs) as [vs'|] eqn:Ev in Hv; cbn [bind] in Hv; [|discriminate].
+    destruct (assoc a gen_format_map) as [x|] eqn:Ex; cbn [bind] in Hm; [|discriminate].
+    destruct (mapr _ attrs) as [fs'|] eqn:Efs in Hm; cbn [bind] in Hm; [|discriminate]. injection Hm as <-.
+    cbn [fl_ok]. rewrite (IH vs' fs' Ev Efs). unfold ascii_flag. rewrite Ea.
+    destruct isint; [|reflexivity]. rewrite (ascii_fd _ _ _ Ea Ex). reflexivity.
+Qed.
+
+(* ------------------------------------------------------------------ Oscar.print_particle_lists_to_file *)
+Definition oself_of (src : list line) (s : ostate) : oself :=
+  mkOself src (os_format s) (os_attrs s) (os_footers s) (Some (os_events s)) (Some (os_counts s)) (Some (os_nevents s)).
+
+(* the row of a held particle as the source computes it *)
+Definition crow (s : ostate) (p : particle) : row :=
+  match row_values (os_format s) (os_attrs s) p with
+  | Ok vs => cellsQ (row_flags (os_format s) (os_attrs s) p) vs
+  | Err _ => []
+  end.
+Definition ncols_of (s : ostate) : nat := first_ncols (os_format s) (os_attrs s) (os_events s).
+Definition row_ok (s : ostate) (p : particle) : Prop := exists vs, row_values (os_format s) (os_attrs s) p = Ok vs.
+Definition rows_ok (s : ostate) : Prop := Forall (Forall (row_ok s)) (os_events s).
+Definition formats_ok (s : ostate) : Prop := exists fs, row_formats (os_format s) (os_attrs s) (ncols_of s) = Ok fs.
+Definition footers4 (s : ostate) : Prop :=
+  Forall (fun c => forall f, nth_error (os_footers s) (Z.to_nat (fst c)) = Some f -> (4 <= List.length f)%nat) (os_counts s).
+Definition late_ext_free (s : ostate) (evs : list (list particle)) : Prop :=
+  ext2 (os_format s) = true ->
+  Forall (fun ev => match ev with p :: _ => (20 < List.length (crow s p))%nat -> (20 < ncols_of s)%nat | [] => True end) evs.
+
+Record odom (src : list line) (s : ostate) : Prop := {
+  d_inv : C06_Oscar.Inv s;                 (* counts describe the held events, labels have end lines, 3 header lines *)
+  d_src : src_ok src (os_header s);        (* the header is the first three lines of the input file, which has an end line *)
+  d_foot : footers4 s;                     (* end lines have a token after the event number *)
+  d_fmt : formats_ok s;                    (* a format the model writes; ASCII: every column has a printf format *)
+  d_rows : rows_ok s;                      (* every column that is written is set (no NaN) *)
+  d_ext : late_ext_free s (os_events s) }. (* no event with more than 20 columns after a first one with 20 *)
+
+Lemma crow_no_nan s p : no_nan (crow s p).
+Proof.
+  unfold crow, no_nan. destruct (row_values _ _ p); [|constructor]. unfold cellsQ. apply Forall_forall.
+  intros c Hc. apply in_map_iff in Hc. destruct Hc as (bv & <- & _). discriminate.
+Qed.
+
+Lemma crow_length s p vs : row_values (os_format s) (os_attrs s) p = Ok vs -> List.length (crow s p) = List.length vs.
+Proof.
+  intros H. unfold crow. rewrite H. apply cellsQ_length.
+  destruct (row_formats (os_format s) (os_attrs s) 0) eqn:E.
+  - apply (flags_ok _ _ _ _ _ _ H E).
+  - (* the length of the flags does not depend on the formats *)
+    unfold row_flags, row_values in *. destruct (os_format s =? "ASCII").
+    + rewrite map_length. apply mapr_length in H. symmetry; exact H.
+    + destruct (wcols_of (os_format s) p); cbn [bind] in H; [|discriminate]. rewrite map_length. apply mapr_length in H. symmetry; exact H.
+Qed.
+
+Lemma first_ncols_crow s : forall evs, Forall (Forall (row_ok s)) evs ->
+  first_ncols (os_format s) (os_attrs s) evs
+  = match List.concat evs with p :: _ => List.length (crow s p) | [] => 0%nat end.
+Proof.
+  induction evs as [|ev evs IH]; intros H; [reflexivity|]. inversion H as [|? ? He Hr]; subst.
+  destruct ev as [|p ev]; cbn [first_ncols List.concat app]; [exact (IH Hr)|].
+  inversion He as [|? ? (vs & Hv) _]; subst. rewrite Hv. symmetry. apply crow_length. exact Hv.
+Qed.
+
+Section OscarPrint.
+  Variable fmt : colfmt -> Q -> string.
+  Variable dec : Z -> string.
+  Hypothesis Hfd : forall v, fmt FD (trq v) = fmt FD v.
+
+  (* one event's rows: np.asarray + np.savetxt against the model's per-particle formatting *)
+  Lemma event_rows s n fs ev h : Forall (row_ok s) ev -> ev <> [] ->
+    row_formats (os_format s) (os_attrs s) n = Ok fs ->
+    (x <- py_asarray_rows (map (crow s) ev) ;; py_savetxt fmt h x fs)
+    = (toks <- mapr (format_particle fmt (os_format s) (os_attrs s) n) ev ;; Ok (h ++ toks)%list).
+  Proof.
+    intros Hr Hne Hf. rewrite savetxt_rows.
+    - rewrite mapr_map. rewrite (mapr_ext _ (format_particle fmt (os_format s) (os_attrs s) n)); [reflexivity|].
+      apply Forall_forall. intros p Hp. rewrite Forall_forall in Hr. destruct (Hr p Hp) as (vs & Hv).
+      unfold format_particle, crow. rewrite Hv, Hf. cbn [bind].
+      destruct (flags_ok _ _ _ _ _ _ Hv Hf) as (H1 & H2). apply fmt_row_cells; assumption.
+    - destruct ev; [congruence|discriminate].
+    - apply Forall_forall. intros r Hin. apply in_map_iff in Hin. destruct Hin as (p & <- & _). apply crow_no_nan.
+  Qed.
+End OscarPrint.
+
+Section OscarMain.
+  Variable fmt : colfmt -> Q -> string.
+  Variable dec : Z -> string.
+  Hypothesis Hfd : forall v, fmt FD (trq v) = fmt FD v.
+  Variable s : ostate.
+
+  Definition hdr (j : nat) (c : Z) : line := ["#"; "event"; dec (Z.of_nat j); "out"; dec c].
+
+  (* one pass of the loop over the events, after the lookups at position j *)
+  Definition ev_closed (fcustom : option (list colfmt)) (st : list line * list colfmt) (j : nat)
+             (z : (Z * Z) * list particle) : result (list line * list colfmt) :=
+    let f1 := (fst st ++ [hdr j (snd (fst z))])%list in
+    let fx := snd st in
+    rows <- py_asarray_rows (map (crow s) (snd z)) ;;
+    if (zlen rows =? 0)%Z then foot <- footer_for dec (os_footers s) (fst (fst z)) j ;; Ok ((f1 ++ [foot])%list, fx)
+    else
+      c0 <- andM (Ok (py_fmt_count fx =? 20)%Z)
+                 (andM (v <- (r0 <- pyidx rows 0 ;; Ok (zlen r0)) ;; Ok (v >? 20)%Z)
+                       (Ok ((os_format s =? "Oscar2013Extended") || (os_format s =? "Oscar2013Extended_IC")))) ;;
+      fx' <- (if c0 : bool then n <- (r0 <- pyidx rows 0 ;; Ok (zlen r0)) ;; Ok (fx ++ py_fmt_repeat (n - 20) [FD])%list
+              else Ok fx) ;;
+      f2 <- (if os_format s =? "Oscar2013" then py_savetxt fmt f1 rows gen_format_oscar2013
+             else if is_ext3 (os_format s) then py_savetxt fmt f1 rows fx'
+             else if os_format s =? "ASCII" then fc <- py_unbound fcustom ;; py_savetxt fmt f1 rows fc
+             else Ok f1) ;;
+      foot <- footer_for dec (os_footers s) (fst (fst z)) j ;; Ok ((f2 ++ [foot])%list, fx').
+
+  (* what is known about the held events and their count rows *)
+  Definition held (z : (Z * Z) * list particle) : Prop :=
+    snd (fst z) = zlen (snd z) /\ (0 <= fst (fst z))%Z /\
+    (forall f, nth_error (os_footers s) (Z.to_nat (fst (fst z))) = Some f -> (4 <= List.length f)%nat) /\
+    Forall (row_ok s) (snd z).
+
+  Definition fx_inv (fx : list colfmt) (rem : list (list particle)) : Prop :=
+    ext2 (os_format s) = true ->
+    (fx = gen_format_extended /\ first_ncols (os_format s) (os_attrs s) rem = ncols_of s) \/ fx = ext_fmt (ncols_of s).
+
+  Lemma take_all {A} (l : list A) : take (List.length l) l = Ok l.
+  Proof. induction l as [|x t IH]; cbn [List.length take]; [reflexivity|]. rewrite IH. reflexivity. Qed.
+
+  Lemma zlen_to_nat {A} (l : list A) : Z.to_nat (zlen l) = List.length l.
+  Proof. unfold zlen. apply Nat2Z.id. Qed.
+
+  Lemma asarray_same r x : py_asarray_rows r = Ok x -> x = r.
+  Proof. unfold py_asarray_rows. destruct r; [congruence|]. destruct (forallb _ _); congruence. Qed.
+
+  Lemma fmt_repeat_fd k : py_fmt_repeat k [FD] = repeat FD (Z.to_nat k).
+  Proof. unfold py_fmt_repeat. induction (Z.to_nat k) as [|n IH]; cbn [repeat List.concat app]; [reflexivity|]. rewrite IH. reflexivity. Qed.
+
+  Lemma c0_val (a b : bool) (r : row) (t : list row) :
+    andM (Ok a) (andM (v <- (r0 <- pyidx (r :: t) 0 ;; Ok (zlen r0)) ;; Ok (v >? 20)%Z) (Ok b))
+    = Ok (a && (zlen r >? 20)%Z && b).
+  Proof. unfold pyidx. cbn. destruct a; cbn; [|reflexivity]. destruct (zlen r >? 20)%Z; reflexivity. Qed.
+
+  Lemma ext_fmt_le n : (n <= 20)%nat -> ext_fmt n = gen_format_extended.
+  Proof. intros H. unfold ext_fmt. replace (n - 20)%nat with 0%nat by lia. apply app_nil_r. Qed.
+
+  (* one pass against one step of the model's write_events *)
+  Lemma ev_closed_model fcustom fs :
+    row_formats (os_format s) (os_attrs s) (ncols_of s) = Ok fs ->
+    ((os_format s =? "ASCII") = true -> fcustom = Some fs) ->
+    forall acc fx j lab ev rem, held ((lab, zlen ev), ev) -> late_ext_free s (ev :: rem) -> fx_inv fx (ev :: rem) ->
+    exists fx', fx_inv fx' rem /\
+      ev_closed fcustom (acc, fx) j ((lab, zlen ev), ev)
+      = (toks <- mapr (format_particle fmt (os_format s) (os_attrs s) (ncols_of s)) ev ;;
+         foot <- footer_for dec (os_footers s) lab j ;;
+         Ok ((acc ++ hdr j (zlen ev) :: toks ++ [foot])%list, fx')).
+  Proof.
+    intros Hfs Hfc acc fx j lab ev rem (_ & Hlab & Hf4 & Hrows) Hl Hx. cbn [fst snd] in *.
+    unfold ev_closed. cbn [fst snd].
+    destruct ev as [|p ev].
+    - exists fx. split.
+      + intros E. destruct (Hx E) as [(H1 & H2)|H1]; [left; split; assumption|right; exact H1].
+      + cbn [map py_asarray_rows bind mapr app]. change (zlen [] =? 0)%Z with true. cbn iota.
+        destruct (footer_for dec (os_footers s) lab j); cbn [bind]; [|reflexivity]. rewrite <- app_assoc. reflexivity.
+    - assert (Hne : p :: ev <> []) by discriminate.
+      pose proof (event_rows fmt Hfd s (ncols_of s) fs (p :: ev) (acc ++ [hdr j (zlen (p :: ev))])%list Hrows Hne Hfs) as ER.
+      set (L := List.length (crow s p)).
+      assert (HL : first_ncols (os_format s) (os_attrs s) ((p :: ev) :: rem) = L).
+      { cbn [first_ncols]. inversion Hrows as [|? ? (vs & Hv) _]; subst. rewrite Hv. unfold L. symmetry. apply crow_length. exact Hv. }
+      assert (Hfin : forall fx' , fx_inv fx' rem ->
+                (f2 <- (x <- py_asarray_rows (map (crow s) (p :: ev)) ;; py_savetxt fmt (acc ++ [hdr j (zlen (p :: ev))]) x fs) ;;
+                 foot <- footer_for dec (os_footers s) lab j ;; Ok ((f2 ++ [foot])%list, fx'))
+                = (toks <- mapr (format_particle fmt (os_format s) (os_attrs s) (ncols_of s)) (p :: ev) ;;
+                   foot <- footer_for dec (os_footers s) lab j ;;
+                   Ok ((acc ++ hdr j (zlen (p :: ev)) :: toks ++ [foot])%list, fx'))).
+      { intros fx' _. rewrite ER. destruct (mapr _ (p :: ev)); cbn [bind]; [|reflexivity].
+        destruct (footer_for dec (os_footers s) lab j); cbn [bind]; [|reflexivity]. rewrite <- !app_assoc. reflexivity. }
+      clear ER.
+      assert (Htriv : fx_inv (ext_fmt (ncols_of s)) rem) by (intros _; right; reflexivity).
+      destruct (py_asarray_rows (map (crow s) (p :: ev))) as [rows|e] eqn:Ea.
+      2:{ exists (ext_fmt (ncols_of s)). split; [exact Htriv|]. rewrite <- (Hfin _ Htriv). reflexivity. }
+      apply asarray_same in Ea as Er. subst rows. cbn [bind].
+      cbn [map]. rewrite zlen_cons. destruct (zlen (map (crow s) ev) + 1 =? 0)%Z eqn:E0;
+        [apply Z.eqb_eq in E0; pose proof (zlen_nonneg (map (crow s) ev)); lia|].
+      rewrite c0_val. cbn [bind]. unfold pyidx. cbn [zlen List.length Z.of_nat Z.ltb Z.compare Z.to_nat nth_error bind].
+      fold (zlen (crow s p)).
+      destruct (row_formats_cases _ _ _ _ Hfs) as [(E1 & ->)|[(E1 & E2 & ->)|(E1 & E2 & E3 & Hm)]].
+      + (* Oscar2013 *)
+        rewrite E1. assert (E2 : ((os_format s =? "Oscar2013Extended") || (os_format s =? "Oscar2013Extended_IC")) = false).
+        { apply String.eqb_eq in E1. rewrite E1. reflexivity. }
+        rewrite E2, andb_false_r. cbn [bind]. exists fx. split; [intros E; unfold ext2 in E; congruence|].
+        apply Hfin. intros E; unfold ext2 in E; congruence.
+      + (* Oscar2013Extended / _IC *)
+        rewrite E1. unfold ext2 in E2. assert (E3 : is_ext3 (os_format s) = true) by (unfold is_ext3; rewrite E2; reflexivity).
+        rewrite E2, E3, andb_true_r.
+        exists (ext_fmt (ncols_of s)). split; [exact Htriv|].
+        assert (Hfx : (if (py_fmt_count fx =? 20)%Z && (zlen (crow s p) >? 20)%Z
+                       then Ok (fx ++ py_fmt_repeat (zlen (crow s p) - 20) [FD])%list else Ok fx)
+                      = Ok (ext_fmt (ncols_of s))).
+        { unfold py_fmt_count. fold L. unfold zlen at 2 3. fold L.
+          specialize (Hl E2). inversion Hl as [|? ? HlL _]; subst. fold L in HlL.
+          destruct (Hx E2) as [(H1 & H2)|H1].
+          - rewrite HL in H2. subst fx. change (zlen gen_format_extended =? 20)%Z with true. cbn [andb].
+            destruct (Z.of_nat L >? 20)%Z eqn:EL.
+            + rewrite fmt_repeat_fd. unfold ext_fmt. rewrite <- H2. do 3 f_equal. lia.
+            + rewrite ext_fmt_le; [reflexivity|]. rewrite Z.gtb_ltb in EL. apply Z.ltb_ge in EL. lia.
+          - subst fx. destruct (Nat.le_gt_cases (ncols_of s) 20) as [Hle|Hgt].
+            + rewrite ext_fmt_le by exact Hle. change (zlen gen_format_extended =? 20)%Z with true. cbn [andb].
+              destruct (Z.of_nat L >? 20)%Z eqn:EL; [|reflexivity]. exfalso. apply Z.gtb_lt in EL.
+              assert (20 < L)%nat by lia. specialize (HlL H). lia.
+            + assert (Ec : (zlen (ext_fmt (ncols_of s)) =? 20)%Z = false).
+              { apply Z.eqb_neq. unfold ext_fmt. rewrite zlen_app. unfold zlen at 2. rewrite repeat_length.
+                change (zlen gen_format_extended) with 20%Z. lia. }
+              rewrite Ec. reflexivity. }
+        rewrite Hfx. cbn [bind]. apply Hfin. exact Htriv.
+      + (* ASCII *)
+        assert (Ef : os_format s = "ASCII") by (apply String.eqb_eq; exact E3). unfold ext2 in E2.
+        rewrite E1, E2, E3, andb_false_r. cbn [bind]. rewrite Ef. cbn [is_ext3 String.eqb Ascii.eqb Bool.eqb orb].
+        rewrite (Hfc E3). cbn [py_unbound bind]. exists fx. split; [intros E; unfold ext2 in E; rewrite Ef in E; discriminate|].
+        rewrite <- Ef. apply Hfin. intros E; unfold ext2 in E; rewrite Ef in E; discriminate.
+  Qed.
+
+  Lemma events_loop fcustom fs :
+    row_formats (os_format s) (os_attrs s) (ncols_of s) = Ok fs ->
+    ((os_format s =? "ASCII") = true -> fcustom = Some fs) ->
+    forall zs j acc fx, Forall held zs -> late_ext_free s (map snd zs) -> fx_inv fx (map snd zs) ->
+    match foldi (ev_closed fcustom) j zs (acc, fx) with Ok r => Ok (fst r) | Err e => Err e end
+    = (body <- write_events fmt dec (os_format s) (os_attrs s) (os_footers s) (ncols_of s) j (map snd zs) (map fst zs) ;;
+       Ok (acc ++ body)%list).
+  Proof.
+    intros Hfs Hfc. induction zs as [|[[lab c] ev] zs IH]; intros j acc fx Hh Hl Hx.
+    - cbn [foldi map write_events bind fst]. rewrite app_nil_r. reflexivity.
+    - inversion Hh as [|? ? Hz Hh']; subst. pose proof Hz as (Hc & _). cbn [fst snd] in Hc. subst c.
+      cbn [foldi map write_events fst snd]. rewrite zlen_to_nat, take_all. cbn [bind].
+      assert (Hl' : late_ext_free s (map snd zs)).
+      { intros E. specialize (Hl E). cbn [map snd] in Hl. inversion Hl; assumption. }
+      destruct (ev_closed_model fcustom fs Hfs Hfc acc fx j lab ev (map snd zs) Hz Hl Hx) as (fx' & Hx' & ->).
+      destruct (mapr _ ev) as [toks|]; cbn [bind]; [|reflexivity].
+      destruct (footer_for dec (os_footers s) lab j) as [foot|]; cbn [bind]; [|reflexivity].
+      rewrite (IH (S j) _ fx' Hh' Hl' Hx').
+      destruct (write_events _ _ _ _ _ _ _ _ _); cbn [bind]; [|reflexivity].
+      unfold hdr. rewrite <- !app_assoc. reflexivity.
+  Qed.
+
+  (* ---- the method *)
+  Lemma held_of_lists : forall evs cnts, C06_Oscar.held_ok (os_footers s) evs cnts ->
+    Forall (fun c => forall f, nth_error (os_footers s) (Z.to_nat (fst c)) = Some f -> (4 <= List.length f)%nat) cnts ->
+    Forall (Forall (row_ok s)) evs ->
+    counts_match evs cnts /\ List.length cnts = List.length evs /\ Forall held (combine cnts evs).
+  Proof.
+    induction evs as [|ev evs IH]; intros [|[lab n] cnts] Hh Hf Hr; cbn [C06_Oscar.held_ok] in Hh; try contradiction.
+    - repeat split; constructor.
+    - destruct Hh as (Hc & Hl & _ & Hh'). inversion Hf as [|? ? Hf1 Hf']; subst. inversion Hr as [|? ? Hr1 Hr']; subst.
+      destruct (IH cnts Hh' Hf' Hr') as (H1 & H2 & H3). repeat split.
+      + constructor; [reflexivity|exact H1].
+      + cbn [List.length]. rewrite H2. reflexivity.
+      + cbn [combine]. constructor; [|exact H3]. repeat split; cbn [fst snd]; assumption.
+  Qed.
+
+  Lemma nth_error_combine {A B} (l : list A) (m : list B) : forall j a b,
+    nth_error (combine l m) j = Some (a, b) -> nth_error l j = Some a /\ nth_error m j = Some b.
+  Proof.
+    revert m. induction l as [|x l IH]; intros [|y m] [|j] a b H; cbn [combine nth_error] in *; try discriminate.
+    - injection H as <- <-. split; reflexivity.
+    - apply IH. exact H.
+  Qed.
+
+  Lemma py_get2_nat cnts j lab c : nth_error cnts j = Some (lab, c) ->
+    py_get2 cnts (Z.of_nat j) 0 = Ok lab /\ py_get2 cnts (Z.of_nat j) 1 = Ok c.
+  Proof. intros H. unfold py_get2. rewrite pyidx_nat, H. split; reflexivity. Qed.
+
+  Lemma dict_lookup : forall attrs fs,
+    mapr (fun a => match assoc a gen_format_map with Some x => Ok x | None => Err KeyError end) attrs = Ok fs ->
+    mapr (fun attr => py_dict_get (map (fun kf => (fst kf, [snd kf])) gen_format_map) attr) attrs = Ok (map (fun f => [f]) fs).
+  Proof.
+    induction attrs as [|a attrs IH]; intros fs Hm; cbn [mapr] in *; [injection Hm as <-; reflexivity|].
+    unfold py_dict_get at 1.
+    assert (Ha : assoc a (map (fun kf => (fst kf, [snd kf])) gen_format_map) = option_map (fun f => [f]) (assoc a gen_format_map)).
+    { generalize gen_format_map. intros l. induction l as [|[k v] l IHl]; [reflexivity|]. cbn [map assoc fst snd]. destruct (a =? k); [reflexivity|exact IHl]. }
+    rewrite Ha. destruct (assoc a gen_format_map) as [x|]; cbn [bind option_map] in *; [|discriminate].
+    destruct (mapr _ attrs) as [fs'|] eqn:E in Hm; cbn [bind] in Hm; [|discriminate]. injection Hm as <-.
+    rewrite (IH fs' E). reflexivity.
+  Qed.
+
+  Lemma ascii_custom fs : (os_format s =? "ASCII") = true ->
+    row_formats (os_format s) (os_attrs s) (ncols_of s) = Ok fs ->
+    mapr (fun attr => py_dict_get (map (fun kf => (fst kf, [snd kf])) gen_format_map) attr) (os_attrs s) = Ok (map (fun f => [f]) fs).
+  Proof.
+    intros EA Hf. destruct (row_formats_cases _ _ _ _ Hf) as [(E1 & _)|[(_ & E2 & _)|(_ & _ & _ & Hm)]].
+    - apply String.eqb_eq in E1, EA. congruence.
+    - apply String.eqb_eq in EA. unfold ext2 in E2. rewrite EA in E2. discriminate.
+    - apply dict_lookup. exact Hm.
+  Qed.
+
+  Lemma concat_singletons {A} (l : list A) : List.concat (map (fun f => [f]) l) = l.
+  Proof. induction l as [|x l IH]; cbn [map List.concat app]; [reflexivity|]. rewrite IH. reflexivity. Qed.
+
+  Lemma combine_fst {A B} : forall (l : list A) (m : list B), List.length l = List.length m -> map fst (combine l m) = l.
+  Proof. induction l as [|x l IH]; intros [|y m] H; try discriminate; [reflexivity|]. cbn [combine map fst]. rewrite IH by (cbn [List.length] in H; lia). reflexivity. Qed.
+  Lemma combine_snd {A B} : forall (l : list A) (m : list B), List.length l = List.length m -> map snd (combine l m) = m.
+  Proof. induction l as [|x l IH]; intros [|y m] H; try discriminate; [reflexivity|]. cbn [combine map snd]. rewrite IH by (cbn [List.length] in H; lia). reflexivity. Qed.
+
+  Lemma py_range_0 n : py_range 0 (Z.of_nat n) = zrange_n (Z.of_nat 0) n.
+  Proof. unfold py_range. rewrite Z.sub_0_r, Nat2Z.id. reflexivity. Qed.
+
+  Lemma py_range_len {A} (l : list A) : py_range 0 (zlen l) = zrange_n (Z.of_nat 0) (List.length l).
+  Proof. apply py_range_0. Qed.
+
+  Lemma header_loop (body : list line -> Z -> result (list line)) (a b c : line) h :
+    (forall f i, body f i = (v <- pyidx [RL a; RL b; RL c] i ;; Ok (py_write f v))) ->
+    fold_leftM body (py_range 0 3) h = Ok (h ++ [a; b; c])%list.
+  Proof.
+    intros Hb. change (py_range 0 3) with [0; 1; 2]%Z. cbn [fold_leftM].
+    rewrite Hb. change (pyidx [RL a; RL b; RL c] 0) with (Ok (RL a)). cbn [bind py_write].
+    rewrite Hb. change (pyidx [RL a; RL b; RL c] 1) with (Ok (RL b)). cbn [bind py_write].
+    rewrite Hb. change (pyidx [RL a; RL b; RL c] 2) with (Ok (RL c)). cbn [bind py_write].
+    repeat rewrite <- app_assoc. reflexivity.
+  Qed.
+
+  Lemma rows_map src ev : Forall (row_ok s) ev -> mapr (gen_oscar_particle_as_list (oself_of src s)) ev = Ok (map (crow s) ev).
+  Proof.
+    intros H. rewrite <- mapr_total. apply mapr_ext. apply Forall_forall. intros p Hp. rewrite Forall_forall in H.
+    destruct (H p Hp) as (vs & Hv). rewrite (source_oscar_particle_as_list (oself_of src s) p vs Hv). unfold crow.
+    cbn [oself_of o_format o_attrs]. rewrite Hv. reflexivity.
+  Qed.
+  Lemma rowss_map src evs : Forall (Forall (row_ok s)) evs ->
+    mapr (mapr (gen_oscar_particle_as_list (oself_of src s))) evs = Ok (map (map (crow s)) evs).
+  Proof.
+    intros H. rewrite <- mapr_total. apply mapr_ext. apply Forall_forall. intros ev Hev. rewrite Forall_forall in H.
+    apply rows_map. apply H. exact Hev.
+  Qed.
+
+  (* case analysis on everything that is scrutinised on both sides *)
+  Ltac head_step t :=
+    lazymatch t with
+    | bind ?r _ => head_step r
+    | (if ?b then _ else _) =>
+      lazymatch b with true => fail | false => fail | _ => destruct b eqn:? end
+    | Ok _ => fail
+    | Err _ => fail
+    | _ => destruct t eqn:?
+    end.
+  Ltac crunch :=
+    unfold andM;
+    repeat (first
+      [ reflexivity
+      | match goal with |- ?l = ?r => first [head_step l | head_step r] end; cbn [bind] ]).
+
+  Variable out0 : list line.
+  Hypothesis Hdec0 : dec 0%Z = "0".
+
+  Lemma footer0 self lab : (0 <= lab)%Z ->
+    (forall f, nth_error (o_end_lines self) (Z.to_nat lab) = Some f -> (4 <= List.length f)%nat) ->
+    gen_oscar_event_footer dec self lab 0 = footer_for dec (o_end_lines self) lab 0.
+  Proof. exact (fun H1 H2 => source_oscar_event_footer dec self lab 0 H1 H2). Qed.
+
+  Theorem source_oscar_print src : odom src s ->
+    gen_oscar_print fmt dec out0 (oself_of src s) = write_oscar fmt dec s.
+  Proof.
+    intros [Hinv Hsrc Hfoot (fs & Hfs) Hrows Hext].
+    destruct Hinv as (Hn & Hh & Hhd).
+    destruct (held_of_lists _ _ Hh Hfoot Hrows) as (Hcm & Hlen & Hheld).
+    destruct (scan_run _ _ Hsrc) as (cl & post & Hscan).
+    destruct Hhd as (h1 & h2 & h3 & Hhdr).
+    unfold gen_oscar_print. cbv zeta.
+    cbn [oself_of o_src o_format o_attrs o_end_lines o_events o_counts o_nevents].
+    change [("t", [FG]); ("x", [FG]); ("y", [FG]); ("z", [FG]); ("mass", [FG]); ("E", [FG9]); ("px", [FG9]); ("py", [FG9]);
+            ("pz", [FG9]); ("pdg", [FD]); ("ID", [FD]); ("charge", [FD]); ("ncoll", [FD]); ("form_time", [FG]); ("xsecfac", [FG]);
+            ("proc_id_origin", [FD]); ("proc_type_origin", [FD]); ("t_last_coll", [FG]); ("pdg_mother1", [FD]);
+            ("pdg_mother2", [FD]); ("baryon_number", [FD]); ("strangeness", [FD])]
+      with (map (fun kf : string * colfmt => (fst kf, [snd kf])) gen_format_map).
+    set (fc := if os_format s =? "ASCII" then Some fs else None).
+    assert (Hfc : (os_format s =? "ASCII") = true -> fc = Some fs) by (unfold fc; intros ->; reflexivity).
+    destruct (os_format s =? "ASCII") eqn:EA;
+      [rewrite (ascii_custom fs EA Hfs); cbn [bind]; unfold py_fmt_join; rewrite concat_singletons; change (Some fs) with fc|change (@None (list colfmt)) with fc].
+    all: clearbody fc.
+    all: assert (Hfc' : (os_format s =? "ASCII") = true -> fc = Some fs) by (rewrite EA; exact Hfc).
+    all: rewrite (py_while_ext _ scan_step) by (intros [[c h] [|l f]]; cbn [py_readline scan_step]; unfold line_is_end; reflexivity).
+    all: rewrite Hscan; cbn [bind]; rewrite Hhdr; cbn [map].
+    all: rewrite (header_loop _ h1 h2 h3 _ (fun f i => bind_ok _)); cbn [bind py_is_none py_open_w py_open_a py_close app].
+    all: rewrite Hn; change (Z.of_nat (List.length (os_events s))) with (zlen (os_events s)).
+    all: rewrite (particle_list_spec _ _ _ Hcm).
+    all: unfold write_oscar; rewrite Hn; change (Z.of_nat (List.length (os_events s))) with (zlen (os_events s)).
+    all: unfold py_oz_eq.
+    all: pose proof Hrows as Hrows0; pose proof Hheld as Hheld0; pose proof Hext as Hext0; pose proof Hlen as Hlen0; unfold rows_ok in Hrows0.
+    all: destruct (os_events s) as [|ev [|ev2 evs]] eqn:Eevs;
+      [ (* no event *)
+        change (zlen (@nil (list particle)) =? 0)%Z with true; cbn [bind]; rewrite Hhdr; reflexivity
+      | (* one event *)
+        destruct (os_counts s) as [|[lab c] [|c2 cnts]] eqn:Ecnt; try (cbn [List.length] in Hlen0; discriminate);
+        change (zlen [ev] =? 0)%Z with false; cbn [py_the bind]; change (zlen [ev] >? 1)%Z with false; cbn [bind];
+        change (pyidx [(lab, c)] 0) with (Ok (lab, c)); cbn [bind];
+        change (py_getcell (lab, c) 0) with (Ok lab); change (py_getcell (lab, c) 1) with (Ok c); cbn [bind];
+        cbn [combine] in Hheld0; inversion Hheld0 as [|? ? Hz _]; subst;
+        pose proof Hz as (Hc & Hlab & Hf4 & Hrw); cbn [fst snd] in Hc, Hlab, Hf4, Hrw; subst c;
+        destruct (ev_closed_model fc fs Hfs Hfc' [h1; h2; h3] gen_format_extended 0 lab ev [] Hz Hext0) as (fx' & _ & EM);
+        [ intros _; left; split; [reflexivity|unfold ncols_of; rewrite Eevs; reflexivity] |];
+        transitivity (r <- ev_closed fc ([h1; h2; h3], gen_format_extended) 0 (lab, zlen ev, ev) ;; Ok (fst r));
+        [ unfold ev_closed, hdr, is_ext3, gen_format_oscar2013, gen_format_extended; cbn [fst snd];
+          change (Z.of_nat 0) with 0%Z; rewrite Hdec0, ?EA;
+          change (py_fmt_count [FG; FG; FG; FG; FG; FG9; FG9; FG9; FG9; FD; FD; FD; FD; FG; FG; FD; FD; FG; FD; FD] =? 20)%Z with true;
+          rewrite !(footer0 (oself_of src s) lab Hlab Hf4); cbn [oself_of o_end_lines py_write];
+          destruct ev as [|p ev'];
+          [ cbn [bind py_asarray_plist map py_asarray_rows]
+          | inversion Hrows0 as [|? ? Hrw0 _]; subst; rewrite (rows_map src _ Hrw0); cbn [bind py_asarray_plist] ];
+          cbn [app]; crunch
+        | rewrite EM; cbn [write_events]; rewrite zlen_to_nat, take_all; cbn [bind];
+          unfold ncols_of; rewrite Eevs, Hhdr; unfold hdr; crunch; cbn [fst]; rewrite ?app_nil_r; reflexivity ]
+      | (* several events *)
+        rewrite (rowss_map src _ Hrows0); cbn [bind];
+        assert (E0 : (zlen (ev :: ev2 :: evs) =? 0)%Z = false) by (apply Z.eqb_neq; rewrite !zlen_cons; pose proof (zlen_nonneg evs); lia);
+        assert (E1 : (zlen (ev :: ev2 :: evs) >? 1)%Z = true) by (apply Z.gtb_lt; rewrite !zlen_cons; pose proof (zlen_nonneg evs); lia);
+        rewrite E0; cbn [py_the bind]; rewrite E1; cbn [bind];
+        rewrite py_range_len;
+        replace (List.length (ev :: ev2 :: evs)) with (List.length (combine (os_counts s) (ev :: ev2 :: evs)))
+          by (rewrite combine_length, Hlen0; apply Nat.min_id);
+        match goal with
+        | |- context [fold_leftM ?b (zrange_n _ _) ?i] =>
+          pose proof (fold_index b (ev_closed fc) (combine (os_counts s) (ev :: ev2 :: evs)) [] i) as FI
+        end;
+        cbn [List.length app] in FI; rewrite FI; clear FI ].
+    (* the loop against write_events *)
+    1, 3: 
+      pose proof (events_loop fc fs Hfs Hfc' (combine (os_counts s) (ev :: ev2 :: evs)) 0 [h1; h2; h3] gen_format_extended) as EL;
+      rewrite (combine_snd _ _ Hlen0), (combine_fst _ _ Hlen0) in EL;
+      specialize (EL Hheld0 Hext0);
+      unfold ncols_of in EL; rewrite ?Eevs in EL;
+      rewrite Hhdr, <- EL by (intros _; left; split; [reflexivity|unfold ncols_of; rewrite Eevs; reflexivity]);
+      unfold gen_format_extended;
+      match goal with |- context [foldi ?g ?j ?l ?i] => destruct (foldi g j l i) as [[f fx]|] end; reflexivity.
+    (* one pass of the loop *)
+    all: intros [f_out fx] j [[lab c] evj] Hnth; pose proof Hnth as Hnth0;
+      apply nth_error_combine in Hnth; destruct Hnth as (Hc1 & Hc2);
+      destruct (py_get2_nat _ _ _ _ Hc1) as (G0 & G1); rewrite G0, G1; cbn [bind py_plist_get];
+      rewrite pyidx_nat, (map_nth_error (map (crow s)) _ _ Hc2); cbn [bind];
+      apply nth_error_In in Hnth0; rewrite Forall_forall in Hheld0;
+      destruct (Hheld0 _ Hnth0) as (_ & Hlab & Hf4 & _); cbn [fst snd] in Hlab, Hf4;
+      rewrite !(source_oscar_event_footer dec (oself_of src s) lab j Hlab Hf4);
+      unfold ev_closed, hdr, is_ext3, gen_format_oscar2013; cbn [fst snd oself_of o_end_lines py_write]; rewrite ?EA.
+    all: crunch.
+  Qed.
+End OscarMain.
+
+(* ------------------------------------------------------------------ Jetscape.print_particle_lists_to_file *)
+Definition jself_of (src : list line) (s : jstate) : jself :=
+  mkJself src (js_defstr s) (js_last s) (Some (js_events s)) (Some (js_counts s)) (Some (js_nevents s)).
+Definition jrow_ok (p : particle) : Prop := exists vs, mapr (fun c => col_value c p) jet_cols = Ok vs.
+Definition jrow (p : particle) : row :=
+  match mapr (fun c => col_value c p) jet_cols with Ok vs => cellsQ (map snd jet_cols) vs | Err _ => [] end.
+
+Record jdom (src : list line) (s : jstate) : Prop := {
+  jd_inv : C06_Jetscape.JInv s;                       (* counts describe the held events *)
+  jd_src : exists rest, src = js_header s :: rest;    (* the header is the first line of the input file *)
+  jd_rows : Forall (Forall jrow_ok) (js_events s) }.  (* every column that is written is set (no NaN) *)
+
+Section JetMain.
+  Variable fmt : colfmt -> Q -> string.
+  Variable dec : Z -> string.
+  Hypothesis Hfd : forall v, fmt FD (trq v) = fmt FD v.
+  Variable s : jstate.
+  Variable out0 : list line.
+
+  Definition jhdr (j : nat) (c : Z) : line :=
+    ["#"; "Event"; dec (Z.of_nat j + 1); "weight"; "1"; "EPangle"; "0"; js_defstr s; dec c].
+
+  Lemma jrow_no_nan p : no_nan (jrow p).
+  Proof.
+    unfold jrow, no_nan. destruct (mapr _ jet_cols); [|constructor]. unfold cellsQ. apply Forall_forall.
+    intros c Hc. apply in_map_iff in Hc. destruct Hc as (bv & <- & _). discriminate.
+  Qed.
+
+  Lemma jrows_map src ev : Forall jrow_ok ev -> mapr (gen_jetscape_particle_as_list (jself_of src s)) ev = Ok (map jrow ev).
+  Proof.
+    intros H. rewrite <- mapr_total. apply mapr_ext. apply Forall_forall. intros p Hp. rewrite Forall_forall in H.
+    destruct (H p Hp) as (vs & Hv). rewrite (source_jetscape_particle_as_list _ p vs Hv). unfold jrow. rewrite Hv. reflexivity.
+  Qed.
+  Lemma jrowss_map src evs : Forall (Forall jrow_ok) evs ->
+    mapr (mapr (gen_jetscape_particle_as_list (jself_of src s))) evs = Ok (map (map jrow) evs).
+  Proof.
+    intros H. rewrite <- mapr_total. apply mapr_ext. apply Forall_forall. intros ev Hev. rewrite Forall_forall in H.
+    apply jrows_map. apply H. exact Hev.
+  Qed.
+
+  Lemma jevent_rows ev h : Forall jrow_ok ev -> ev <> [] ->
+    (x <- py_asarray_rows (map jrow ev) ;; py_savetxt fmt h x gen_format_jetscape)
+    = (toks <- mapr (format_jet_particle fmt) ev ;; Ok (h ++ toks)%list).
+  Proof.
+    intros Hr Hne. rewrite savetxt_rows.
+    - rewrite mapr_map. rewrite (mapr_ext _ (format_jet_particle fmt)); [reflexivity|].
+      apply Forall_forall. intros p Hp. rewrite Forall_forall in Hr. destruct (Hr p Hp) as (vs & Hv).
+      unfold format_jet_particle, jrow. rewrite Hv. cbn [bind]. apply fmt_row_cells; [exact Hfd|reflexivity|].
+      apply mapr_length in Hv. rewrite map_length. symmetry. exact Hv.
+    - destruct ev; [congruence|discriminate].
+    - apply Forall_forall. intros r Hin. apply in_map_iff in Hin. destruct Hin as (p & <- & _). apply jrow_no_nan.
+  Qed.
+
+  (* one pass of the loop over the events, after the lookups at position j *)
+  Definition jev_closed (f_out : list line) (j : nat) (z : (Z * Z) * list particle) : result (list line) :=
+    rows <- py_asarray_rows (map jrow (snd z)) ;;
+    let f1 := (f_out ++ [jhdr j (snd (fst z))])%list in
+    if negb (zlen rows =? 0)%Z then py_savetxt fmt f1 rows gen_format_jetscape else Ok f1.
+
+  Definition jheld (z : (Z * Z) * list particle) : Prop := snd (fst z) = zlen (snd z) /\ Forall jrow_ok (snd z).
+
+  Lemma jev_closed_model acc j lab ev : Forall jrow_ok ev ->
+    jev_closed acc j ((lab, zlen ev), ev)
+    = (toks <- mapr (format_jet_particle fmt) ev ;; Ok (acc ++ jhdr j (zlen ev) :: toks)%list).
+  Proof.
+    intros Hr. unfold jev_closed. cbn [fst snd]. destruct ev as [|p ev].
+    - cbn [map py_asarray_rows bind mapr]. reflexivity.
+    - pose proof (jevent_rows (p :: ev) (acc ++ [jhdr j (zlen (p :: ev))])%list Hr) as ER.
+      destruct (py_asarray_rows (map jrow (p :: ev))) as [rows|e] eqn:Ea; cbn [bind] in *.
+      + apply asarray_same in Ea. subst rows. cbn [map]. rewrite zlen_cons.
+        destruct (zlen (map jrow ev) + 1 =? 0)%Z eqn:E0; [apply Z.eqb_eq in E0; pose proof (zlen_nonneg (map jrow ev)); lia|].
+        cbn [negb]. cbn [map] in ER. rewrite ER by discriminate.
+        destruct (mapr _ (p :: ev)); cbn [bind]; [|reflexivity]. rewrite <- app_assoc. reflexivity.
+      + specialize (ER ltac:(discriminate)). destruct (mapr _ (p :: ev)); [discriminate|]. injection ER as <-. reflexivity.
+  Qed.
+
+  Lemma jevents_loop : forall zs j acc, Forall jheld zs ->
+    foldi jev_closed j zs acc
+    = (body <- write_jet_events fmt dec (js_defstr s) j (map snd zs) (map fst zs) ;; Ok (acc ++ body)%list).
+  Proof.
+    induction zs as [|[[lab c] ev] zs IH]; intros j acc Hh.
+    - cbn [foldi map write_jet_events bind]. rewrite app_nil_r. reflexivity.
+    - inversion Hh as [|? ? (Hc & Hr) Hh']; subst. cbn [fst snd] in Hc, Hr. subst c.
+      cbn [foldi map write_jet_events fst snd]. rewrite zlen_to_nat, take_all. cbn [bind].
+      rewrite (jev_closed_model acc j lab ev Hr).
+      destruct (mapr _ ev) as [toks|]; cbn [bind]; [|reflexivity]. rewrite (IH (S j) _ Hh').
+      destruct (write_jet_events _ _ _ _ _ _); cbn [bind]; [|reflexivity].
+      unfold jhdr. rewrite <- !app_assoc. reflexivity.
+  Qed.
+
+  Lemma jheld_of_lists : forall evs cnts, C06_Jetscape.jheld_ok evs cnts -> Forall (Forall jrow_ok) evs ->
+    counts_match evs cnts /\ List.length cnts = List.length evs /\ Forall jheld (combine cnts evs).
+  Proof.
+    induction evs as [|ev evs IH]; intros [|[lab n] cnts] Hh Hr; cbn [C06_Jetscape.jheld_ok] in Hh; try contradiction.
+    - repeat split; constructor.
+    - destruct Hh as (Hc & Hh'). inversion Hr as [|? ? Hr1 Hr']; subst.
+      destruct (IH cnts Hh' Hr') as (H1 & H2 & H3). repeat split.
+      + constructor; [reflexivity|exact H1].
+      + cbn [List.length]. rewrite H2. reflexivity.
+      + cbn [combine]. constructor; [|exact H3]. split; cbn [fst snd]; [reflexivity|assumption].
+  Qed.
+
+  Theorem source_jetscape_print src : jdom src s ->
+    gen_jetscape_print fmt dec out0 (jself_of src s) = write_jetscape fmt dec s.
+  Proof.
+    intros [(Hn & Hh) (rest & ->) Hrows].
+    destruct (jheld_of_lists _ _ Hh Hrows) as (Hcm & Hlen & Hheld).
+    unfold gen_jetscape_print. cbv zeta.
+    cbn [jself_of j_src j_defstr j_last j_events j_counts j_nevents py_readline py_is_none py_open_w py_write app].
+    rewrite Hn. change (Z.of_nat (List.length (js_events s))) with (zlen (js_events s)).
+    rewrite (particle_list_spec _ _ _ Hcm).
+    unfold write_jetscape. rewrite Hn. change (Z.of_nat (List.length (js_events s))) with (zlen (js_events s)).
+    unfold py_oz_eq.
+    destruct (js_events s) as [|ev [|ev2 evs]] eqn:Eevs.
+    - change (zlen (@nil (list particle)) =? 0)%Z with true. cbn [bind py_write py_close app]. reflexivity.
+    - destruct (js_counts s) as [|[lab c] [|c2 cnts]] eqn:Ecnt; try (cbn [List.length] in Hlen; discriminate).
+      change (zlen [ev] =? 0)%Z with false. cbn [py_the bind]. change (zlen [ev] >? 1)%Z with false. cbn [bind].
+      change (pyidx [(lab, c)] 0) with (Ok (lab, c)). cbn [bind].
+      change (py_getcell (lab, c) 1) with (Ok c). cbn [bind].
+      cbn [combine] in Hheld. inversion Hheld as [|? ? (Hc & Hr) _]; subst. cbn [fst snd] in Hc, Hr. subst c.
+      cbn [write_jet_events]. rewrite zlen_to_nat, take_all. cbn [bind].
+      pose proof (jev_closed_model [js_header s] 0 lab ev Hr) as EM. unfold jev_closed, jhdr in EM. cbn [fst snd] in EM.
+      change (Z.of_nat 0 + 1)%Z with 1%Z in *. unfold gen_format_jetscape in EM. cbn [app] in EM.
+      destruct ev as [|p ev'].
+      + cbn [bind py_asarray_plist map mapr py_write py_close app zlen List.length Z.of_nat Z.eqb negb]. reflexivity.
+      + rewrite (jrows_map _ _ Hr). cbn [bind py_asarray_plist py_write].
+        destruct (py_asarray_rows (map jrow (p :: ev'))) as [rows|e] eqn:Ea; cbn [bind] in *.
+        * apply asarray_same in Ea. subst rows. cbn [map] in *. rewrite zlen_cons in *.
+          destruct (zlen (map jrow ev') + 1 =? 0)%Z eqn:E0; [apply Z.eqb_eq in E0; pose proof (zlen_nonneg (map jrow ev')); lia|].
+          cbn [negb] in *. rewrite EM. destruct (mapr _ (p :: ev')); cbn [bind py_write py_close app]; [|reflexivity].
+          rewrite app_nil_r. reflexivity.
+        * destruct (mapr _ (p :: ev')); [discriminate|]. injection EM as <-. reflexivity.
+    - rewrite (jrowss_map _ _ Hrows). cbn [bind].
+      assert (E0 : (zlen (ev :: ev2 :: evs) =? 0)%Z = false) by (apply Z.eqb_neq; rewrite !zlen_cons; pose proof (zlen_nonneg evs); lia).
+      assert (E1 : (zlen (ev :: ev2 :: evs) >? 1)%Z = true) by (apply Z.gtb_lt; rewrite !zlen_cons; pose proof (zlen_nonneg evs); lia).
+      rewrite E0. cbn [py_the bind]. rewrite E1. cbn [bind].
+      rewrite py_range_len.
+      replace (List.length (ev :: ev2 :: evs)) with (List.length (combine (js_counts s) (ev :: ev2 :: evs)))
+        by (rewrite combine_length, Hlen; apply Nat.min_id).
+      match goal with
+      | |- context [fold_leftM ?b (zrange_n _ _) ?i] =>
+        pose proof (fold_index b jev_closed (combine (js_counts s) (ev :: ev2 :: evs)) [] i) as FI
+      end.
+      cbn [List.length app] in FI. rewrite FI; clear FI.
+      + rewrite (jevents_loop _ 0 _ Hheld), (combine_snd _ _ Hlen), (combine_fst _ _ Hlen).
+        destruct (write_jet_events _ _ _ _ _ _); cbn [bind py_write py_close app]; reflexivity.
+      + intros f_out j [[lab c] evj] Hnth. apply nth_error_combine in Hnth. destruct Hnth as (Hc1 & Hc2).
+        destruct (py_get2_nat _ _ _ _ Hc1) as (_ & G1). rewrite G1. cbn [bind py_plist_get].
+        rewrite pyidx_nat, (map_nth_error (map jrow) _ _ Hc2). cbn [bind].
+        unfold jev_closed, jhdr. cbn [fst snd py_write].
+        destruct (py_asarray_rows (map jrow evj)); cbn [bind]; [|reflexivity].
+        destruct (negb (zlen a =? 0)%Z); [|reflexivity]. destruct (py_savetxt _ _ _ _); reflexivity.
+  Qed.
+End JetMain.
+
+(* ------------------------------------------------------------------ the `is None` guards, the hand-over tables *)
+Section Guards.
+  Variable fmt : colfmt -> Q -> string.
+  Variable dec : Z -> string.
+  Variable out0 : list line.
+
+  (* an attribute that is None: ValueError (from the writer's own guard or from particle_list()) *)
+  Theorem source_oscar_print_none self header :
+    src_ok (o_src self) header -> (o_format self =? "ASCII") = false ->
+    o_events self = None \/ o_counts self = None \/ o_nevents self = None ->
+    gen_oscar_print fmt dec out0 self = Err ValueError.
+  Proof.
+    intros Hsrc EA Hnone. destruct (scan_run _ _ Hsrc) as (cl & post & Hscan).
+    destruct Hsrc as (h1 & h2 & h3 & _ & _ & _ & -> & _).
+    unfold gen_oscar_print. cbv zeta. rewrite EA.
+    rewrite (py_while_ext _ scan_step) by (intros [[c h] [|l f]]; cbn [py_readline scan_step]; unfold line_is_end; reflexivity).
+    rewrite Hscan. cbn [bind map].
+    rewrite (header_loop _ h1 h2 h3 _ (fun f i => bind_ok _)). cbn [bind].
+    destruct (o_events self) as [evs|]; [|reflexivity]. cbn [py_is_none].
+    unfold py_particle_list.
+    destruct (o_counts self) as [cnts|]; [|reflexivity].
+    destruct (o_nevents self) as [n|]; [|reflexivity].
+    destruct Hnone as [H|[H|H]]; discriminate.
+  Qed.
+
+  Theorem source_jetscape_print_none self :
+    j_events self = None \/ j_counts self = None \/ j_nevents self = None ->
+    gen_jetscape_print fmt dec out0 self = Err ValueError.
+  Proof.
+    intros Hnone. unfold gen_jetscape_print. cbv zeta. destruct (py_readline (j_src self)) as [hl h].
+    destruct (j_events self) as [evs|]; [|reflexivity]. cbn [py_is_none].
+    destruct (j_counts self) as [cnts|]; [|reflexivity]. cbn [py_is_none].
+    unfold py_particle_list.
+    destruct (j_nevents self) as [n|]; [|reflexivity].
+    destruct Hnone as [H|[H|H]]; discriminate.
+  Qed.
+End Guards.
+
+(* Oscar.__init__ / Jetscape.__init__: which attribute the writer later reads is set from what *)
+Theorem source_oscar_init :
+  gen_oscar_init = [("PATH_OSCAR_", "OSCAR_FILE"); ("oscar_format_", "self.loader_.oscar_format()");
+                    ("event_end_lines_", "self.loader_.event_end_lines()");
+                    ("impact_parameters_", "self.loader_.impact_parameter()")].
+Proof. reflexivity. Qed.
+Theorem source_jetscape_init :
+  gen_jetscape_init = [("sigmaGen_", "self.loader_.get_sigmaGen()"); ("particle_type_", "self.loader_.get_particle_type()");
+                       ("JETSCAPE_FILE", "JETSCAPE_FILE");
+                       ("particle_type_defining_string_", "self.loader_.get_particle_type_defining_string()");
+                       ("last_line_", "self.loader_.get_last_line(JETSCAPE_FILE)")].
+Proof. reflexivity. Qed.
+
+(* the getters of Particle as the hand model's attribute table has them (plus status, weight) *)
+Theorem source_particle_props :
+  (forall a x, assoc a attr_table = Some x -> assoc a gen_particle_props = Some x) /\
+  assoc "status" gen_particle_props = Some (21%nat, true) /\ assoc "weight" gen_particle_props = Some (24%nat, false).
+Proof. split; [exact attr_table_props|split; reflexivity]. Qed.
+
+(* non-vacuity: the state of C06_example meets the domain and is written as there *)
+Definition ex_src : list line :=
+  (os_header C06_Example.ex_state ++ [["#"; "event"; "0"; "out"; "1"]; ["#"; "event"; "0"; "end"; "0"; "impact"; "0.000"]])%list.
+Theorem source_oscar_example : odom ex_src C06_Example.ex_state.
+Proof.
+  split.
+  - exact (proj1 C06_Example.example_state).
+  - exists ["#!OSCAR2013"; "particle_lists"], ["#"; "Units:"], ["#"; "SMASH"], [["#"; "event"; "0"; "out"; "1"]],
+           ["#"; "event"; "0"; "end"; "0"; "impact"; "0.000"], [].
+    repeat split; try reflexivity; [repeat constructor|cbn; lia].
+  - repeat constructor. cbn. intros f H. injection H as <-. cbn. lia.
+  - eexists. reflexivity.
+  - repeat constructor. eexists. reflexivity.
+  - intros E. discriminate E.
+Qed.
